@@ -6,6 +6,7 @@ export PYTHONHASHSEED=0
 mkdir -p build evidence replays
 /venv/bin/python -m harness.gen_consts
 /venv/bin/python -m harness.pregen_all || true
-( cd coq && coq_makefile -f _CoqProject -o Makefile && timeout 3000 make -j"$(nproc)" )
+/venv/bin/python -c "from harness import core; core.ensure_makefile()"
+( cd coq && timeout 3000 make -j"$(nproc)" )
 ./harness/build_ext.sh >/dev/null
 echo "setup ok"
